@@ -62,6 +62,10 @@ type Store struct {
 	ClipToHints bool
 	SlowName    string        // series of this metric name have slow iterators
 	SlowDelay   time.Duration
+	// selects on a metric name (an equality matcher on __name__): fail at once / answer slowly
+	FailSelectName  string
+	SlowSelectName  string
+	SlowSelectDelay time.Duration
 	YieldSeed   int64 // when non-zero, pseudo-random yields/sleeps in callbacks
 
 	mu        sync.Mutex
@@ -237,6 +241,17 @@ func matcherStrings(ms []*labels.Matcher) []string {
 
 func (q *querier) Select(sorted bool, hints *storage.SelectHints, ms ...*labels.Matcher) storage.SeriesSet {
 	k := q.s.hit("select", q.ctx)
+	for _, m := range ms {
+		if m.Name == labels.MetricName && m.Type == labels.MatchEqual {
+			if q.s.SlowSelectName != "" && m.Value == q.s.SlowSelectName {
+				time.Sleep(q.s.SlowSelectDelay)
+			}
+			if q.s.FailSelectName != "" && m.Value == q.s.FailSelectName {
+				atomic.AddInt64(&q.s.fired, 1)
+				k = "error"
+			}
+		}
+	}
 	rec := SelectRecord{Mint: q.mint, Maxt: q.maxt, Matchers: matcherStrings(ms), Raw: append([]*labels.Matcher(nil), ms...), Sorted: sorted}
 	if hints != nil {
 		rec.Hints = *hints
